@@ -75,7 +75,18 @@ def _all_key_tuples(d):
     return out
 
 
+def _big_cases():
+    """Generated programs of a size the sampled cases never reach: d=6, operands of 40-64 blades, so that several output
+    coefficients are sums of more than 32 (up to 64) terms and there are 64 outputs."""
+    full = S.canon_sorted(range(64))
+    for sig in ([1, 1, 1, 1, -1, -1], [0, 1, 1, -1, 1, 1]):
+        for ka, kb in ((full, full[:40]), (full[::-1], full), (full[10:50], list(range(64)))):
+            yield {"cfg": {"sig": sig, "start": None, "basis": None}, "a": {"cls": "enum", "keys": list(ka), "vals": None},
+                   "b": {"cls": "enum", "keys": list(kb), "vals": None}, "mode": "generic", "cse": sig[0] == 1}
+
+
 def enumerate_cases(tier):
+    yield from _big_cases()
     dmax = 1 if tier == "quick" else 2
     i = 0
     for d in range(dmax + 1):
